@@ -1383,9 +1383,21 @@ R.mutant("post-update-executemany-first-row-params", PERS,
 R.mutant("benign-insert-executemany-rename-zipped-params", PERS,
          sub("                    last_inserted_params,\n                ) in zip(records, result.context.compiled_parameters):\n                    if state:\n                        _postfetch(\n                            mapper_rec,\n                            uowtransaction,\n                            table,\n                            state,\n                            state_dict,\n                            result,\n                            last_inserted_params,\n",
              "                    row_params,\n                ) in zip(records, result.context.compiled_parameters):\n                    if state:\n                        _postfetch(\n                            mapper_rec,\n                            uowtransaction,\n                            table,\n                            state,\n                            state_dict,\n                            result,\n                            row_params,\n"), None)
-R.mutant("benign-update-executemany-zipped-with-compiled-parameters", PERS,
-         sub("                    has_all_defaults,\n                    has_all_pks,\n                ) in records:\n                    if bookkeeping:\n                        _postfetch(\n                            mapper,\n                            uowtransaction,\n                            table,\n                            state,\n                            state_dict,\n                            c,\n                            c.context.compiled_parameters[0],\n",
-             "                    has_all_defaults,\n                    has_all_pks,\n                ), compiled_params in zip(\n                    records, c.context.compiled_parameters\n                ):\n                    if bookkeeping:\n                        _postfetch(\n                            mapper,\n                            uowtransaction,\n                            table,\n                            state,\n                            state_dict,\n                            c,\n                            compiled_params,\n"), None)
+# (repaired by str2-f: the text this mutant produced IS the tree since the fix: commit for C13-R6; it is now the
+# regression of that fix plus a behaviour-preserving neighbour)
+_UPD_ZIP_HEAD = ("                    has_all_defaults,\n                    has_all_pks,\n                ), compiled_params in zip(\n"
+                 "                    records, c.context.compiled_parameters\n                ):\n                    if bookkeeping:\n"
+                 "                        _postfetch(\n                            mapper,\n                            uowtransaction,\n"
+                 "                            table,\n                            state,\n                            state_dict,\n"
+                 "                            c,\n                            compiled_params,\n")
+R.mutant("update-executemany-postfetch-first-row-params", PERS,
+         sub(_UPD_ZIP_HEAD, "                    has_all_defaults,\n                    has_all_pks,\n                ) in records:\n"
+                            "                    if bookkeeping:\n                        _postfetch(\n                            mapper,\n"
+                            "                            uowtransaction,\n                            table,\n                            state,\n"
+                            "                            state_dict,\n                            c,\n"
+                            "                            c.context.compiled_parameters[0],\n"), "C13-R6")
+R.mutant("benign-update-executemany-rename-zipped-params", PERS,
+         sub(_UPD_ZIP_HEAD, _UPD_ZIP_HEAD.replace("compiled_params", "row_params")), None)
 
 # ---- rob-D2: benign refactoring families of _process_execute_defaults (stored diff rfD_13 and relatives) and the
 # ---- breaking twins the generalised recognisers must still catch
